@@ -1,0 +1,23 @@
+// +build verif
+
+package util
+
+// Contracts for the verifier in /verif (comment-only; not part of any build
+// without the tag, and empty of code with it).
+
+/*@
+func Uint64AsBytes
+  props C04 C13 C15
+  ensures len(result) == 8 && fresh(result)
+  ensures bytes(result) == be64(i)
+
+func Uint16AsBytes
+  props C04 C13
+  ensures len(result) == 2 && fresh(result)
+  ensures bytes(result) == be16(i)
+
+func BytesAsUint64
+  props C05 C13 C15
+  requires len(b) >= 8
+  ensures be64(result) == bytes(b[0:8])
+@*/
